@@ -273,7 +273,7 @@ func genClass(r *rng) *gType {
 	}
 }
 
-func (f *gField) isArray() bool { return f.typ.Kind() == reflect.Array }
+func (f *gField) isArray() bool  { return f.typ.Kind() == reflect.Array }
 func (f *gField) isPrefix() bool { return f.name == "HashPrefix" }
 
 // inClass: the layout predicate of C10/C20 ("layout is unambiguous"), see DESIGN.md §6.
